@@ -61,6 +61,29 @@ def handler(case):
         return {"parse_failed": True}
     name = case["name"]
     src = generator.generate(tr, name)
+    if "edit_text" in case:
+        # generate / edit the SAME tree object in place through the ast API / generate again;
+        # the reference is a fresh parse of the edited text
+        tr2 = parser.parse(case["edit_text"])
+        ref = parser.parse(case["edit_text"])
+        if tr2 is None or ref is None:
+            return {"parse_failed": True}
+        M, M2 = tr.classes[name], tr2.classes[name]
+        for n, sy in M2.symbols.items():
+            if n not in M.symbols:
+                M.symbols[n] = sy
+        M.equations += M2.equations[len(M.equations):]
+        out["first_src_differs"] = True
+        src_old = src
+        src = generator.generate(tr, name)
+        out["regenerated_differs"] = src != src_old
+        fe = tree.flatten(copy.deepcopy(tr), ast.ComponentRef.from_string(name)).classes[name]
+        fr = tree.flatten(copy.deepcopy(ref), ast.ComponentRef.from_string(name)).classes[name]
+        out["edit_ok"] = ([[dump(e.left, ast), dump(e.right, ast)] for e in fe.equations] ==
+                          [[dump(e.left, ast), dump(e.right, ast)] for e in fr.equations] and
+                          [(s.name, list(s.prefixes)) for s in fe.symbols.values()] ==
+                          [(s.name, list(s.prefixes)) for s in fr.symbols.values()])
+        tr = ref
     flat = tree.flatten(copy.deepcopy(tr), ast.ComponentRef.from_string(name))
     fc = flat.classes[name]
     syms = sorted(fc.symbols.values(), key=lambda s: s.order)
